@@ -25,7 +25,7 @@ from vf.core import Violation, ok
 
 PID = "C19"
 LEVEL = "exploration"
-CASE_TIMEOUT = 4  # cases take milliseconds; a coroutine spinning without yielding can only be stopped by the watchdog
+CASE_TIMEOUT = 5  # cases take milliseconds; a coroutine spinning without yielding can only be stopped by the watchdog
 HANG_IS_VIOLATION = True  # "every concurrent request completes"
 MAX_STEPS = 200_000  # event-loop iterations per case; the largest seen on the unchanged tree is < 3000
 RULE = (
@@ -62,7 +62,7 @@ WALL = {"quick": 150, "thorough": 1500}
 
 
 def budget(tier):
-    return 12000 if tier == "quick" else 250000
+    return 12000 if tier == "quick" else 200000
 
 
 # ---------------------------------------------------------------------------------------------
@@ -107,9 +107,13 @@ _registered = False
 
 
 def _register():
+    """Imports the package and registers the fake provider (at module import: the import takes seconds and must
+    not run under the per-case watchdog)."""
     global _registered
     if _registered:
         return
+    import nemoguardrails  # noqa: F401  (the package has to be imported before its embeddings sub-package)
+    from nemoguardrails.embeddings.basic import BasicEmbeddingsIndex  # noqa: F401
     from nemoguardrails.embeddings.providers import register_embedding_provider
     from nemoguardrails.embeddings.providers.base import EmbeddingModel
 
@@ -131,6 +135,13 @@ def _register():
 
     register_embedding_provider(FakeModel, ENGINE)
     _registered = True
+
+
+_register()
+
+
+def setup_worker():
+    _register()
 
 
 # ---------------------------------------------------------------------------------------------
